@@ -531,6 +531,8 @@ public:
         //unsigned int SkipForward;
         int     ScaleModulators;
         bool    fullRangeBrightnessCC74;
+        //! Stop at the loop end instead of jumping back (as requested through the API; the VGM dumper forces it while it is active)
+        bool    loopHooksOnly;
         bool    enableAutoArpeggio;
 
         double delay;
